@@ -14,8 +14,10 @@ VERIF = os.path.dirname(os.path.dirname(os.path.abspath(__file__)))
 REPO = os.environ.get('VERIF_REPO', '/repo')
 LEAN = os.path.join(VERIF, 'lean')
 CACHE = os.path.join(VERIF, '.cache')
-REPLAYS = os.path.join(VERIF, 'replays')
-EVIDENCE = os.path.join(VERIF, 'evidence')
+# runs against a scratch copy of the repository (seeded-change experiments) must not overwrite the evidence of /repo
+_SCRATCH = os.path.realpath(REPO) != '/repo'
+REPLAYS = os.path.join(VERIF, '.cache', 'replays-scratch') if _SCRATCH else os.path.join(VERIF, 'replays')
+EVIDENCE = os.path.join(VERIF, '.cache', 'evidence-scratch') if _SCRATCH else os.path.join(VERIF, 'evidence')
 NPROC = os.cpu_count() or 4
 
 ALLOWED_AXIOMS = {'propext', 'Classical.choice', 'Quot.sound'}
